@@ -385,7 +385,7 @@ class Calendar(Dict, _calendar):
                 weekend = [5,6]
             else:
                 weekend = as_list(weekend)
-            holidays = as_list(holidays)
+            holidays = [ymd(holiday) for holiday in as_list(holidays)] # a holiday is a day: is_holiday looks up ymd(date)
             holidays = dict(zip(holidays, holidays)) # we prefer to store holidays as a dict, as check of date in holidays is faster for hash
             super(Calendar, self).__init__(weekend = weekend, holidays = holidays,
                                            key = key, t0 = t0, t1 = t1, adj = adj)
